@@ -97,12 +97,16 @@ L0 == [op |-> [name |-> "none"], out |-> "ok", own |-> <<>>, found |-> 0, script
        dp |-> [cbs |-> <<>>, ret |-> "idle", then |-> "none"],
        stack |-> <<>>, refs |-> <<>>, src |-> <<>>, phase |-> "", pre |-> <<>>, soft |-> "",
        b |-> [len |-> 0, s |-> <<>>],          \* the second operand of a binary operation (read-only)
-       fa |-> [x |-> "A", y |-> "B", stopHit |-> FALSE, i |-> 1, exit |-> "b_done"], seg |-> 1]
+       fa |-> [x |-> "A", y |-> "B", stopHit |-> FALSE, i |-> 1, exit |-> "b_done"], seg |-> 1,
+       res |-> <<>>]                           \* what the call returns, where the model says (binary operations)
 
 On(name) == IF name = "A" THEN A ELSE IF name = "B" THEN L.b ELSE T
 \* (updates of the container a phase works on are written out per action)
 
 Panic(l, out) == [l EXCEPT !.out = IF l.out = "ok" THEN out ELSE l.out]
+
+\* the boolean a comparison / predicate returns (!= is the negation of ==)
+BoolRes(op, x) == <<"b", IF op.name = "b_eq" /\ op.ne THEN ~x ELSE x>>
 
 \* =================================================================== ops ==
 ArgK(j, c) == [kt |-> 10 + j, c |-> c, r |-> 0]
@@ -151,7 +155,7 @@ BulkOps ==
   ELSE {[name |-> "s_extend", items |-> it] : it \in ItemSeqs}
        \cup (IF A.len = 0 THEN {[name |-> "s_from_iter", items |-> it] : it \in ItemSeqs}
                                 \cup {[name |-> "s_from_array", items |-> it] : it \in {x \in ItemSeqs : Len(x) = Cap}} ELSE {})
-DstSeqs == {<<>>} \cup {<<[c |-> c, r |-> 0, v |-> 0]>> : c \in Classes}
+DstSeqs == {<<>>} \cup (IF Cap >= 1 THEN {<<[c |-> c, r |-> 0, v |-> 0]>> : c \in Classes} ELSE {})
            \cup (IF Cap >= 2 THEN {x \in {<<[c |-> c, r |-> 0, v |-> 0], [c |-> d, r |-> 0, v |-> 0]>> : c \in Classes, d \in Classes} : x[1].c # x[2].c} ELSE {})
 CloneFromNames == {"clone_from", "s_clone_from"}
 CloneOps == {[name |-> "clone", then |-> [name |-> "none"], on |-> "orig", survivor |-> sv] : sv \in {"orig", "copy"}}
@@ -162,9 +166,10 @@ CloneOps == {[name |-> "clone", then |-> [name |-> "none"], on |-> "orig", survi
 BSeqs == {q \in UNION {[1..j -> Classes] : j \in 0..Cap} : Adv \/ NoDup(q)}
 BinaryNames == {"b_eq", "b_pred", "b_alg", "b_sub"}
 BinaryOps ==
-  IF IsMap THEN {}
+  IF IsMap       \* eq.rs: == and != against a second map (key objects 50 + i, value objects 50 + i with contents bv; ours hold 0)
+  THEN UNION {{[name |-> "b_eq", b |-> q, bv |-> vs, ne |-> ne] : vs \in [1..Len(q) -> {0, 1}], ne \in BOOLEAN} : q \in BSeqs}
   ELSE UNION {
-    {[name |-> "b_eq", b |-> q], [name |-> "b_sub", b |-> q]}
+    {[name |-> "b_eq", b |-> q, ne |-> ne] : ne \in BOOLEAN} \cup {[name |-> "b_sub", b |-> q]}
     \cup {[name |-> "b_pred", p |-> pp, b |-> q] : pp \in {"is_subset", "is_superset", "is_disjoint"}}
     \cup {[name |-> "b_alg", kind |-> kd, n |-> n, b |-> q] :
             kd \in {"union", "intersection", "difference", "symmetric_difference"}, n \in {0, 1, A.len + Len(q)}} : q \in BSeqs}
@@ -206,22 +211,23 @@ Start(op) ==
        [] op.name = "insert_unchecked" ->
             /\ pc' = "iu" /\ L' = [l EXCEPT !.own = <<VObj(op.v.vt), KObj(op.k.kt)>>]
        [] op.name \in BinaryNames ->
-            LET bb == [len |-> Len(op.b), s |-> [i \in 1..Len(op.b) |-> LiveSlot(op.b[i], 50 + i, 0)]]
-                l2 == [l EXCEPT !.b = bb, !.soft = "b_done"] IN
+            LET bb == [len |-> Len(op.b), s |-> [i \in 1..Len(op.b) |-> LiveSlot(op.b[i], 50 + i, IF IsMap THEN 50 + i ELSE 0)]]
+                l2 == [l EXCEPT !.b = bb, !.soft = "b_done"]
+                no == [l2 EXCEPT !.res = BoolRes(op, FALSE)] IN
             (CASE op.name = "b_eq" ->
-                   IF A.len # bb.len THEN pc' = "b_done" /\ L' = l2
+                   IF A.len # bb.len THEN pc' = "b_done" /\ L' = no
                    ELSE pc' = "fa" /\ L' = [l2 EXCEPT !.fa = [x |-> "A", y |-> "B", stopHit |-> FALSE, i |-> 1, exit |-> "b_done"]]
               [] op.name = "b_pred" ->
                    (CASE op.p = "is_subset" ->
                           IF A.len <= bb.len THEN pc' = "fa" /\ L' = [l2 EXCEPT !.fa = [x |-> "A", y |-> "B", stopHit |-> FALSE, i |-> 1, exit |-> "b_done"]]
-                          ELSE pc' = "b_done" /\ L' = l2
+                          ELSE pc' = "b_done" /\ L' = no
                      [] op.p = "is_superset" ->
                           IF bb.len <= A.len THEN pc' = "fa" /\ L' = [l2 EXCEPT !.fa = [x |-> "B", y |-> "A", stopHit |-> FALSE, i |-> 1, exit |-> "b_done"]]
-                          ELSE pc' = "b_done" /\ L' = l2
+                          ELSE pc' = "b_done" /\ L' = no
                      [] op.p = "is_disjoint" ->
                           IF A.len <= bb.len THEN pc' = "fa" /\ L' = [l2 EXCEPT !.fa = [x |-> "A", y |-> "B", stopHit |-> TRUE, i |-> 1, exit |-> "b_done"]]
                           ELSE pc' = "fa" /\ L' = [l2 EXCEPT !.fa = [x |-> "B", y |-> "A", stopHit |-> TRUE, i |-> 1, exit |-> "b_done"]])
-              [] op.name = "b_alg" -> pc' = "ba" /\ L' = [l2 EXCEPT !.seg = 1, !.i = 1, !.left = op.n, !.phase = IF op.n = 0 THEN "fold" ELSE "next", !.soft = "ba_soft"]
+              [] op.name = "b_alg" -> pc' = "ba" /\ L' = [l2 EXCEPT !.seg = 1, !.i = 1, !.left = op.n, !.phase = IF op.n = 0 THEN "fold" ELSE "next", !.soft = "ba_soft", !.res = <<"n", 0>>]
               [] op.name = "b_sub" -> pc' = "bs" /\ L' = [l2 EXCEPT !.seg = 1, !.i = 1, !.soft = ""])
        [] op.name = "disjoint" ->
             /\ L' = [l EXCEPT !.i = 1, !.j = IF op.unchecked THEN 1 ELSE 2]
@@ -242,7 +248,7 @@ Survivors(C) == [i \in 1..C.len |-> <<C.s[i].kt, C.s[i].c, C.s[i].vt>>]
 Record ==
   [n |-> Cap, s |-> L.pre, o |-> L.op,
    k |-> IF L.out = "injected" THEN Budget - budget ELSE 0,  \* 1 if a panic was injected
-   at |-> L.n0, cb |-> hist, script |-> L.script, out |-> L.out]
+   at |-> L.n0, cb |-> hist, script |-> L.script, out |-> L.out, ret |-> L.res]
 
 Finish ==
   /\ pc = "done"
@@ -766,12 +772,18 @@ CloneGone ==
 FaStep ==
   /\ pc = "fa" /\ UNCHANGED <<A, T, budget, viol, hist>>
   /\ LET X == On(L.fa.x) IN
-     IF L.fa.i > X.len THEN pc' = L.fa.exit /\ L' = L
+     IF L.fa.i > X.len THEN pc' = L.fa.exit /\ L' = [L EXCEPT !.res = BoolRes(L.op, TRUE)]
      ELSE pc' = "scan" /\ L' = StartScan(L, L.fa.y, "e", TRUE, X.s[L.fa.i].kt, X.s[L.fa.i].c, "fa_after")
 FaAfter ==
-  /\ pc = "fa_after" /\ UNCHANGED <<A, T, budget, viol, hist>>
-  /\ IF (L.found # 0) = L.fa.stopHit THEN pc' = L.fa.exit /\ L' = L
-     ELSE pc' = "fa" /\ L' = [L EXCEPT !.fa.i = @ + 1]
+  /\ pc = "fa_after" /\ UNCHANGED <<A, T, viol>>
+  /\ IF (L.found # 0) = L.fa.stopHit THEN pc' = L.fa.exit /\ L' = [L EXCEPT !.res = BoolRes(L.op, FALSE)] /\ UNCHANGED <<budget, hist>>
+     ELSE IF ~IsMap THEN pc' = "fa" /\ L' = [L EXCEPT !.fa.i = @ + 1] /\ UNCHANGED <<budget, hist>>
+     ELSE \* Map ==: other.get(k) == Some(v) compares the two values (user code)
+          /\ hist' = Append(hist, Cb("v", VT(L.b.s[L.found].vt), VT(A.s[L.fa.i].vt)))
+          /\ \/ Inject
+             \/ /\ UNCHANGED budget
+                /\ IF L.op.bv[L.found] = 0 THEN pc' = "fa" /\ L' = [L EXCEPT !.fa.i = @ + 1]
+                   ELSE pc' = L.fa.exit /\ L' = [L EXCEPT !.res = BoolRes(L.op, FALSE)]
 BinaryDone ==        \* the second operand belongs to the caller; a temporary result is gone by now
   /\ pc = "b_done" /\ pc' = "done" /\ T' = NoT /\ UNCHANGED <<A, budget, viol, hist, L>>
 
@@ -786,8 +798,8 @@ Segs(kind) ==
 \* the harness takes n items with next() (each call caught on its own), then folds the rest with
 \* a closure of its own (a callback, 'g')
 Yield(l) ==          \* an item comes out of the adaptor
-  IF l.phase = "next" THEN (IF l.left <= 1 THEN [l EXCEPT !.left = 0, !.phase = "fold", !.i = @ + 1] ELSE [l EXCEPT !.left = @ - 1, !.i = @ + 1])
-  ELSE [l EXCEPT !.i = @ + 1]
+  IF l.phase = "next" THEN (IF l.left <= 1 THEN [l EXCEPT !.left = 0, !.phase = "fold", !.i = @ + 1, !.res[2] = @ + 1] ELSE [l EXCEPT !.left = @ - 1, !.i = @ + 1, !.res[2] = @ + 1])
+  ELSE [l EXCEPT !.i = @ + 1, !.res[2] = @ + 1]
 AlgStep ==
   /\ pc = "ba" /\ UNCHANGED <<A, T, viol>>
   /\ LET sg == Segs(L.op.kind) IN
@@ -833,7 +845,7 @@ SubTail ==       \* Set::insert: a displaced key part (only when comparisons lie
   /\ IF L.ex = <<>> THEN pc' = "bs" /\ L' = [L EXCEPT !.i = @ + 1]
      ELSE pc' = "dropping" /\ L' = GoDrop([L EXCEPT !.i = @ + 1], <<DropK(L.ex[1])>>, "bs")
 SubReturned ==   \* the result is handed to the caller, which looks at it and drops it (a call of its own)
-  /\ pc = "bs_ret" /\ pc' = "bs_drop" /\ L' = [L EXCEPT !.soft = "b_done", !.i = 1] /\ UNCHANGED <<A, T, budget, viol, hist>>
+  /\ pc = "bs_ret" /\ pc' = "bs_drop" /\ L' = [L EXCEPT !.soft = "b_done", !.i = 1, !.res = <<"n", T.len>>] /\ UNCHANGED <<A, T, budget, viol, hist>>
 SubDrop ==
   /\ pc = "bs_drop" /\ UNCHANGED <<A, budget>>
   /\ IF L.i > T.len THEN pc' = "b_done" /\ L' = L /\ UNCHANGED <<T, viol, hist>>
